@@ -52,7 +52,7 @@ Eviction(o, A, m) == IF o.kind = "ack" /\ m.reply.kind = "ack" /\ Keys(A) # Keys
 \* harmless difference does not hide the rest of the history from the L1 formulas.
 ByKey(q, key) == CHOOSE x \in SeqToSet(q) : x.t = key
 Reordered(q, keys) == Rev([i \in 1..Len(keys) |-> ByKey(q, keys[i])])
-OrderOnly(o, A, m) == o = m.reply /\ A # Proj(m.st) /\ Content(A) = Content(Proj(m.st))
+OrderOnly(o, A, m) == (o = m.reply \/ o.kind \in {"peers", "speers"}) /\ A # Proj(m.st) /\ Content(A) = Content(Proj(m.st))
                       /\ Len(A.imm) = Len(m.st.imm) /\ Len(A.mut) = Len(m.st.mut) /\ Len(A.peers) = Len(m.st.peers) /\ Len(A.sp) = Len(m.st.sp)
 Resync(st, A) == [st EXCEPT !.imm = Reordered(st.imm, KeyOrder(A).imm), !.mut = Reordered(st.mut, KeyOrder(A).mut),
                             !.peers = Reordered(st.peers, KeyOrder(A).peers), !.sp = Reordered(st.sp, KeyOrder(A).sp)]
@@ -81,8 +81,15 @@ Req == /\ Rec[l].e = "req" /\ mode = "ok"
               A == ObsProj(Rec[l].A)
               counted == r.kind # "advance" /\ FilterAllows(s, r)
               gap == IF counted THEN (IF s.now - lastReq > maxgap THEN s.now - lastReq ELSE maxgap) ELSE maxgap
+              \* the node died while handling this (well-formed) request: C05
               failed == L1Failed(s, r, o, A) \cup Timing(r, o, gap) \cup Eviction(o, A, m)
-              conforms == o = m.reply /\ A = Proj(m.st)
+                        \cup (IF o.kind = "PANIC" THEN {"C05_NoPanic", "C05_NodeStaysAlive"} ELSE {})
+              \* an answer that is a random sample of the stored peers conforms when it is a sample of the right size
+              replyOk == IF m.reply.kind \in {"peers", "speers"} /\ o.kind = m.reply.kind
+                         THEN [o EXCEPT !.peers = {}] = [m.reply EXCEPT !.peers = {}]
+                              /\ ServedOk(o.peers, m.reply.peers, IF o.kind = "peers" THEN PeersPerAnswer ELSE SignedPerAnswer)
+                         ELSE o = m.reply
+              conforms == replyOk /\ A = Proj(m.st)
               \* a wrong eviction victim / recency order (C20) is reported and the behaviour goes on against the LRU reference:
               \* "evicted by the capacity bound" in C04 means evicted as the least recently used entry, so an item the node
               \* dropped out of turn and then rolls back / no longer serves shows up as C04_Seq302 / C04_GetReturnsLast further on
